@@ -1031,11 +1031,11 @@ class MinOnOffTask(OneShotTask):
             return
 
         # get the minimum on/off time
-        if new_value == "inactive":
+        if new_value == "active":
             task_delay = getattr(self.binary_obj, "minimumOnTime") or 0
             if _debug:
                 MinOnOffTask._debug("    - minimum on: %r", task_delay)
-        elif new_value == "active":
+        elif new_value == "inactive":
             task_delay = getattr(self.binary_obj, "minimumOffTime") or 0
             if _debug:
                 MinOnOffTask._debug("    - minimum off: %r", task_delay)
